@@ -52,13 +52,29 @@ HARNESSES = [
          unwind=4, unwindset=["main.%d:26" % i for i in range(6)],
          backends=["default", "kissat"],
          bound="all 2^16 inode modes, all type bytes, all feature words, every combination of pass-1 map membership"),
+    dict(name="find_problem", src="find_problem.c",
+         funcs=["find_problem"],
+         configs=[{"PART": 1}, {"PART": 0, "LO": 0, "HI": 300}, {"PART": 0, "LO": 300}],
+         cbmc_flags=["--object-bits", "11"],
+         unwind=4, unwindset=["find_problem.0:430", "main.0:430", "main.1:430", "main.2:430"],
+         backends=["default", "kissat"],
+         bound="the whole real problem_table (every entry, concrete index loop); one symbolic absent code (all 2^32 values)"),
+    dict(name="extra", src="extra.c",
+         funcs=["check_inode_extra_space", "check_inode_extra_negative_epoch"],
+         cut_statics={"e2fsck/pass1.c": ["check_ea_in_inode"]},
+         unwind=4, unwindset=["main.%d:258" % i for i in range(8)],
+         backends=["default", "kissat"],
+         bound="one 256-byte inode, every byte symbolic; ctx->now and s_want_extra_isize symbolic"),
 ]
 MANIFEST = {
     "text": "Kernel-level slice (partial). Bounded-exhaustive: (1) the fix_problem() protocol over every entry of the real problem_table, every "
             "latch state and flag word: 'no' un-marks valid unless PR_NO_OK, 'yes' sets PROBLEMS_FIXED unless PR_NOT_A_FIX, -n never fixes and "
             "never asks, -y answers yes to everything not PR_FORCE_NO, display flags/counters never change the outcome; (2) repair idempotence of "
             "check_dot, check_dotdot, check_name, check_filetype on fully symbolic entries; (3) an inductive step of the salvage loop proving it "
-            "terminates with a chain of valid entries. Whole-run convergence of e2fsck -fy / -fn is outside.",
+            "terminates with a chain of valid entries; (4) check_inode_extra_space on a fully symbolic 256-byte inode: idempotent, writes iff it changed, "
+            "touches only i_extra_isize and epoch bits -- but the epoch repair can hit bytes beyond i_extra_isize (genuine finding, label [fits]). "
+            "Whole-run convergence of e2fsck -fy / -fn is outside.",
     "note": "Trusted: CBMC's C semantics; fix_problem stubbed to 'yes' in the kernels; the caller's dirent validity test restated from the format; "
-            "find_problem cut to a slot-copying stub (table lookup itself is a linear search, not separately decided).",
+            "find_problem cut to a slot-copying stub in fixproblem; the real find_problem is decided over the whole real table in harness find_problem "
+            "(right entry for every code, NULL otherwise, codes unique). check_ea_in_inode cut in harness extra (not separately decided).",
 }
